@@ -46,7 +46,7 @@ class DecoderModel:
 
     def spec(self, key: str) -> SymEval:
         if key not in self._cache:
-            self._cache[key] = SymEval(self.eng.ce, self.f, bind={self.anam: ("const", key)}).run()
+            self._cache[key] = self.eng.symeval(self.f.qualname, bind={self.anam: ("const", key)})
         return self._cache[key]
 
 
@@ -268,7 +268,7 @@ def field_values(eng: Engine, ctx: Ctx, rid1: str, rid2: str, rid3: str, rid5: s
 def naming(eng: Engine, ctx: Ctx, rid: str, model: DecoderModel):
     ctx.rule(rid, "stored attribute name = field key + one '<sep>{i:02d}' per index level (text fields: the key only), stored on the instance")
     f = model.f
-    se = SymEval(eng.ce, f).run()  # generic key
+    se = eng.symeval(f.qualname)  # generic key
     sep, spec = SH.decoder_suffix_format(eng)
     anamT = ("param", model.anam)
     n = 0
@@ -420,7 +420,7 @@ def groups(eng: Engine, ctx: Ctx, rid6: str, rid7: str, rid8: str, model: Decode
     for des, (ident, occ) in sorted(designators.items(), key=lambda kv: str(kv[0])):
         nb += 1
         gd = ("typed", dict, "gdict")
-        se = SymEval(eng.ce, g, bind={adefp: ("tuple", (("const", des), gd))}, unroll=_no_self_calls).run()
+        se = eng.symeval(g.qualname, bind={adefp: ("tuple", (("const", des), gd))}, unroll=_no_self_calls)
         # the count: argument of the range() the iteration loop runs over
         loops = [(lid, info) for lid, info in se.loop_info.items() if info.get("unrolled") is None]
         outer = [(lid, info) for lid, info in loops if any(e.loops and e.loops[0] == lid and len(e.loops) == 2 for e in se.effects)]
@@ -429,6 +429,9 @@ def groups(eng: Engine, ctx: Ctx, rid6: str, rid7: str, rid8: str, model: Decode
             continue
         lid, info = outer[0]
         it = info.get("iter")
+        if it is None:
+            bad.setdefault("iteration loops", []).append((des, f"repetitions are driven by `while {show(info.get('test', ('?',)))[:60]}`, not by a counted loop over the announced count"))
+            continue
         if is_const(it) and isinstance(it[1], range):
             cnt = ("const", len(it[1])) if it[1].start == 0 and it[1].step == 1 else None
         elif it[0] == "call" and it[2] == ("builtin", "range") and len(it[3]) == 1:
@@ -489,7 +492,7 @@ def groups(eng: Engine, ctx: Ctx, rid6: str, rid7: str, rid8: str, model: Decode
     for des, (ident, occ) in sorted(optionals.items(), key=lambda kv: str(kv[0])):
         no += 1
         gd = ("typed", dict, "gdict")
-        se = SymEval(eng.ce, o, bind={o.params[1]: ("tuple", (("const", des), gd))}).run()
+        se = eng.symeval(o.qualname, bind={o.params[1]: ("tuple", (("const", des), gd))})
         calls = [e for e in se.effects if e.kind == "call" and is_self_call(e.term, d.name)]
         want_c = ("cmp", "==", None, ("const", des[1]))
         okc = len(calls) == 1 and len(calls[0].guards) == 1 and calls[0].guards[0][1] is True
@@ -521,7 +524,7 @@ def groups(eng: Engine, ctx: Ctx, rid6: str, rid7: str, rid8: str, model: Decode
     for kind, shape in shapes.items():
         def ov(t, shape=shape):
             return shape if t == want_adef else None
-        s2 = SymEval(eng.ce, d, override=ov).run()
+        s2 = eng.symeval(d.qualname, override=ov)
         calls = [e for e in s2.effects if e.kind == "call" and e.term[2][0] == "attr" and e.term[2][1] == ("self",)]
         ok = len(calls) == 1 and calls[0].term[2][2] == target[kind] and not calls[0].guards
         ctx.check(ok, rid8, d.qualname, f"{kind} definition", expected=f"exactly one call of {target[kind]}", found=", ".join(f"{c.term[2][2]} under {guard_text(c.guards)[:40]}" for c in calls) or "no call", **eng.loc(d, d.node))
